@@ -10,10 +10,12 @@ RULE = ("P1: in exact rationals TLC checks the code-shaped trapezoid rule (inter
         "exact tableau value for budgets 2..5 and eps in {0, 1/64, 1/1000} (cases whose stopping comparison is within a"
         " factor 4 of eps are not judged); quad5 exact on monomials up to degree DMax (quick 12, thorough 19), reversed"
         " and empty intervals, sign, linearity; sampled trapezoid on integer ordinates with uniform / non-uniform "
-        "dyadic abscissae, unit spacing and dx, lengths 2..64 (bit-exact). Cubics at level budgets 8, 12, 16, 17, 18, "
-        "20 with tolerance 0 must be integrated exactly (Inv_RombergExact holds for every budget); the crate is built "
-        "with overflow checks. Sample tables of 1024, 1025, 2049, 2500 and 3000 points. trapz and quad5 also on an axis"
-        " rescaled by 2^-60 and 2^30. Case class = (rule, degree class, interval orientation, panel/level class).")
+        "dyadic abscissae, unit spacing and dx, lengths 2..64 (bit-exact). Tolerance exactly 0 on degree-6 integrands "
+        "whose first tableau rows coincide without being exact: every level of the budget is used. Cubics at level "
+        "budgets 8, 12, 16, 17, 18, 20 with tolerance 0 must be integrated exactly (Inv_RombergExact holds for every "
+        "budget); the crate is built with overflow checks. Sample tables of 1024, 1025, 2049, 2500 and 3000 points. "
+        "trapz and quad5 also on an axis rescaled by 2^-60 and 2^30. Case class = (rule, degree class, interval "
+        "orientation, panel/level class).")
 ASSUMPTIONS = ["polynomial integrands with small integer coefficients and dyadic limits (exact rational oracle); the catalogue of transcendental integrands is not reached",
                "tolerance 2^-40 of the integral's magnitude scale (measured margin > 1e4, DESIGN appendix D)"]
 EXHAUSTIVE = True
